@@ -12,7 +12,7 @@ SIG = (
     ('red', ('31',)), ('blue', ('34',)), ('bold', ('1',)), ('no_bold_faint', ('22',)), ('[38;5;9', ('38;5;9',)),
     ('rgb(1,2,3)', ('38;2;1;2;3',)), ('[99', ('99',)), ('[1;31', ('1;31',)), ('[1m', ('1m',)), (None, ('31',)),
     ('ul_rgb(4,5,6)', ('4', '58;2;4;5;6')), ('fg_default', ('39',)), ('bg_color256(7)', ('48;5;7',)), ('[4;', ('4;',)),
-    ('[38;5;300', ('38;5;300',)), ('[48;2;1;2;256', ('48;2;1;2;256',)),
+    ('[38;5;300', ('38;5;300',)), ('[48;2;1;2;256', ('48;2;1;2;256',)), ('[38;5', ('38;5',)), ('[58;2;1;2', ('58;2;1;2',)),
 )
 
 
